@@ -241,6 +241,36 @@ def _replay(st, mode):
             if ans["nfit"] == 0:
                 chk("C14.ref-model", "B", obj.B, fmat(ans["tB"]))
             chk("C14.ref-model", "target_B", obj.target_B, fmat(ans["tB"]))
+    # ---- error behaviour: which exception each call raises in this registered state (state-changing calls on a copy)
+    import copy
+
+    def exc_of(fn):
+        try:
+            fn()
+            return "ok"
+        except Exception as ex:
+            return type(ex).__name__
+    n_src = len(est["A"][0]) if est["reg"] else 2
+    probe_x = np.zeros(n_src)
+    calls = {
+        "system_capture": lambda: obj.system_capture(probe_x.copy()),
+        "in_system": lambda: obj.in_system(probe_x.copy()),
+        "register_bounds": lambda: copy.deepcopy(obj).register_bounds(lb=np.zeros(n_src)),
+        "register_targets": lambda: copy.deepcopy(obj).register_targets(PROBES[:1].copy()),
+        "fit_registered": lambda: copy.deepcopy(obj).fit(),
+        "fit_unknown_model": lambda: obj.fit(PROBES[:1].copy(), model="no-such-model"),
+        "fit_n_jobs": lambda: obj.fit(PROBES[:1].copy(), n_jobs=2),
+        "range_not_underdetermined": lambda: obj.range_of_solutions(PROBES[:1].copy(), error="ignore"),
+        "fit_underdetermined_not_under": lambda: obj.fit_underdetermined(PROBES[:1].copy()),
+        "gamut_metric": lambda: obj.compute_gamut(seed=1),
+        "sample_unknown_engine": lambda: obj.sample_in_hull(3, seed=1, engine="no-such-engine"),
+    }
+    for name, want in ans["errors"].items():
+        if want == "n/a":
+            continue
+        got = exc_of(calls[name])
+        if got != want:
+            bad.append(("C14.error-behaviour", dict(q=name, **where0), want, got))
     # ---- fit post-condition (the last action was an internal fit) ------------------
     if last == "fit" and pre_est_B is not None:
         ref = fresh_from(dreye, est, B=pre_est_B)
